@@ -320,7 +320,8 @@ theorem doAction_sim {A : Aff} {st st' : St} {held : List WinTree.Id} (hg : Good
         fun t => pure ({ st with tree := t } : St)) = Res.ok st' → Sim A st.tree st'.tree ∧ Own A st' :=
       fun h => same (fun t' h1 => Sim.of_wins hd (request_wins h1)) h
     unfold ActConf at hc
-    rcases actOK_all a with ha | ha | ha | ha | ha | ha | ha | ha | ha | ha | ha | ha <;> simp only [ha] at h hc
+    rcases actOK_all a with ha | ha | ha | ha | ha | ha | ha | ha | ha | ha | ha | ha | ⟨dt, dl, dn, dc, ha⟩ <;>
+      simp only [ha] at h hc
     · -- close
       obtain ⟨t1, h1, h⟩ := res_bind_eq_ok.1 h
       cases pure_eq_ok h
@@ -367,6 +368,8 @@ theorem doAction_sim {A : Aff} {st st' : St} {held : List WinTree.Id} (hg : Good
     · exact req h
     · exact req h
     · exact req h
+    · -- set_geometry of a window of `A`
+      exact same (fun t' h1 => by refine modify_sim_in hd hc ?_ h1; intro _; rfl) h
   · simp only [hal, Bool.not_false, if_true] at h
     cases pure_eq_ok h
     exact ⟨Sim.refl hd, Own.of_sim (st' := st.say (.refused a)) (Sim.refl hd) (fun _ _ => Nat.le_refl _) hown⟩
